@@ -9,7 +9,7 @@ ID = 'C11'
 LEVEL = 'exploration'
 NEEDS = ('threads', 'aio', 'proc')
 PROC_READY = True
-QUICK = dict(runs=5000, wall=85)
+QUICK = dict(runs=10000, wall=85)
 THOROUGH = dict(runs=300000, wall=1500)
 RULE = ('fault = which worker (leaf index, worker index) raises in __init__, drawn uniformly over all workers of the tree plus "none" '
         '(the site list is enumerated per tree; coverage reports sites hit); tree = up to 3 servlets x 3 workers (thread leaves; process '
